@@ -1828,7 +1828,9 @@ class Gen:
 			for _ in range(8):
 				x = r.random()
 				a, b = r.randint(1, 9), r.randint(1, 9)
-				src = str(r.randint(0, 20)) if x < 0.35 else r.choice([f'{a} + {b}', f'{a + b} - {b}', f'{a} | {b}', f'{a} * {b}', f'-{a}', f'{a} << {b % 3}', f'{a} + {b} * 2', f'{a} & {b + 8}'])
+				src = str(r.randint(0, 20)) if x < 0.35 else r.choice([f'{a} + {b}', f'{a + b} - {b}', f'{a} | {b}', f'{a} * {b}', f'-{a}', f'{a} << {b % 3}', f'{a} + {b} * 2', f'{a} & {b + 8}',
+					# expressions that FOLD to a negative constant (no sign in front of the declaration as a whole)
+					f'{a} - {a + b}', f'-({a})', f'{a} - {b} * 4', f'-{a} * {b}'])
 				val = int(eval(src))  # noqa: S307 - literal arithmetic built two lines above
 				if val not in seen:
 					seen.add(val)
@@ -2211,6 +2213,9 @@ IDIOM_WHAT = {
 	'idiom:separators-in-subexpressions': 'sub-expressions whose rendered text contains top-level-looking separators — calls with two arguments (also nested), '
 		'tuple keys / values, string literals containing `, ` `: ` `{` `}` — as dict-comprehension keys AND values, list-comprehension projections and conditions, '
 		'dict literal keys / values and call arguments: the emitted text keeps each sub-expression whole',
+	'idiom:inlined-constant-under-prefix': 'an `Enum.MEMBER.value` whose member is declared by a signed literal or by an EXPRESSION folding to a negative / positive constant '
+		'(`2 - 5`, `-(3)`, `1 - 2 * 4`, `-2 * 3`) is inlined as text: directly under a prefix operator (`-` `+` `~` `not`), after a binary `-` / `+`, inside products, '
+		'shifts and comparisons the emitted tokens never fuse into `--` / `++` and keep Python\'s value',
 	'idiom:inferred-operator-type': 'the type inferred for an operator expression with operands of different types (int op float, float op int, flat chains of both) '
 		'is the type of Python\'s value whichever operand stands on the left: an un-annotated local, a list literal element, a comprehension projection '
 		'and a lambda result declared from it keep the fractional part',
@@ -2241,6 +2246,8 @@ def idiom_program(rng: random.Random, key: str | None = None) -> tuple[str, dict
 		return key, _container_methods_program(rng)
 	if key == 'idiom:separators-in-subexpressions':
 		return key, _separators_program(rng)
+	if key == 'idiom:inlined-constant-under-prefix':
+		return key, _inlined_constant_program(rng)
 	elem = rng.choice([str(k3), 'v', f'v + {k1}', f'v * {k2}'])
 	cnt = rng.choice(['n', f'n + {rng.randint(1, 2)}', f'(n & 3)', str(rng.randint(0, 4))])
 	read = rng.choice(['t += x', f't = t * {k2} + x', 't += x + 1'])
@@ -2252,6 +2259,37 @@ def idiom_program(rng: random.Random, key: str | None = None) -> tuple[str, dict
 	args = [[rng.randint(0, 6), rng.randint(0, 9)] for _ in range(5)]
 	entries = [{'fn': f, 'params': ['int', 'int'], 'ret': 'int', 'args': args} for f in ('fill_anno', 'fill_inferred', 'fill_field')]
 	return key, {'source': '\n\n'.join(parts), 'entries': entries, 'classes': {'Grid': ['cells', 'n']}}
+
+
+def _inlined_constant_program(rng: random.Random) -> dict[str, Any]:
+	"""enum members declared in every constant form (literal, signed literal, expressions folding to negative and to positive constants), each read
+	through `.value` in every position where the inlined text meets a prefix operator or a neighbouring sign"""
+	a, b, c = rng.randint(1, 9), rng.randint(1, 9), rng.randint(2, 5)
+	decls = [str(rng.randint(0, 20)), f'-{a}', f'{a} - {a + b}', f'-({b})', f'{a} - {b} * {c + 2}', f'-{a} * {c}', f'{a} + {b} * {c}', f'{a + b + 20} - {b}', f'-{a} + {a + b}']
+	rng.shuffle(decls)
+	members: list[tuple[str, int]] = []
+	seen: set[int] = set()
+	for src in decls:
+		val = int(eval(src))  # noqa: S307 - constant arithmetic built above
+		if val not in seen:
+			seen.add(val)
+			members.append((f'M{len(members)}', src))
+	enum = 'from enum import Enum\n\n\nclass Lv(Enum):\n' + ''.join(f'\t{m} = {src}\n' for m, src in members)
+	parts = [enum]
+	fns: list[str] = []
+	forms = ['-{v}', '+{v}', '~{v}', 'n - {v}', 'n + {v}', 'n - -{v}', 'n + +{v}', 'n * -{v}', '-{v} * n', '{v} - -{v2}', '-{v} - {v2}', '(n & 3) << (-{v} & 3)', '- -{v}', '-(-{v})', '~-{v}', '-~{v}',
+		'1 if -{v} < n else 0', '1 if n > -{v} else 0', '1 if not {v} > n else 0', '1 if -{v} == {v2} else 0', 'abs(-{v})', 'max(-{v}, n)', 'n % (abs({v}) + 1)']
+	for k in range(3):
+		lines = []
+		rng.shuffle(forms)
+		for i, form in enumerate(forms[:12]):
+			m1, m2 = rng.choice(members)[0], rng.choice(members)[0]
+			lines.append(f"\tr{i} = " + form.format(v=f'Lv.{m1}.value', v2=f'Lv.{m2}.value') + '\n')
+		ret = ' + '.join(f'r{i} * {i + 1}' for i in range(len(lines)))
+		parts.append(f'def use{k}(n: int) -> int:\n' + ''.join(lines) + f'\treturn {ret}\n')
+		fns.append(f'use{k}')
+	entries = [{'fn': f, 'params': ['int'], 'ret': 'int', 'args': [[rng.randint(0, 9)] for _ in range(4)] + [[rng.randint(-30, 30)]]} for f in fns]
+	return {'source': '\n\n'.join(parts), 'entries': entries, 'classes': {}}
 
 
 def _separators_program(rng: random.Random) -> dict[str, Any]:
